@@ -1014,12 +1014,22 @@ func doInEval(env Env, lhs types.EntityUID, rhs types.Value) (types.Value, error
 		return types.Boolean(entityInOne(env, lhs, rhsv)), nil
 	case types.Set:
 		query := mapset.Make[types.EntityUID](rhsv.Len())
+		// Sets iterate in random order: when several members are not entities, always report the same one
+		// (the one whose type name sorts first) so that the error is a function of the inputs.
+		var badErr error
+		var badName string
 		for rhv := range rhsv.All() {
 			e, err := ValueToEntity(rhv)
 			if err != nil {
-				return zeroValue(), err
+				if name := TypeName(rhv); badErr == nil || name < badName {
+					badErr, badName = err, name
+				}
+				continue
 			}
 			query.Add(e)
+		}
+		if badErr != nil {
+			return zeroValue(), badErr
 		}
 		return types.Boolean(entityInSet(env, lhs, query)), nil
 	}
